@@ -4,6 +4,7 @@
 package kobj
 
 import (
+	"sync/atomic"
 	"fmt"
 	"sort"
 
@@ -64,6 +65,8 @@ func Str(n int) string {
 
 // StrPrinted is the id of the separator-laden label value (see Str).
 const StrPrinted = 26 * 26
+
+var nsnameRoute atomic.Int64
 
 // KV is one map entry.
 type KV struct{ K, V int }
@@ -373,11 +376,36 @@ func (f *Filt) Go() filter.Filter {
 		}
 		return filter.Or(cs...)
 	case FNSName:
+		// every way a caller can make an id: the constructor, a struct literal,
+		// parsing the printed form, a field assignment on a copy — rotating, so
+		// that a term built twice uses different routes
 		ids := make([]nsname.NSName, len(f.IDs))
 		for i, id := range f.IDs {
-			ids[i] = nsname.New(Str(id.NS), Str(id.NM))
+			ns, nm := Str(id.NS), Str(id.NM)
+			switch nsnameRoute.Add(1) % 4 {
+			case 0:
+				ids[i] = nsname.New(ns, nm)
+			case 1:
+				ids[i] = nsname.NSName{Namespace: ns, Name: nm}
+			case 2:
+				if p, err := nsname.Parse(ns + "/" + nm); err == nil {
+					ids[i] = p
+				} else {
+					ids[i] = nsname.New(ns, nm)
+				}
+			default:
+				x := nsname.New(ns, "zz")
+				x.Name = nm
+				ids[i] = x
+			}
 		}
-		return filter.NSName(ids...)
+		// the caller's slice is the caller's: it is reused (scribbled on) after the call
+		arg := append(make([]nsname.NSName, 0, len(ids)+2), ids...)
+		flt := filter.NSName(arg...)
+		for i := range arg {
+			arg[i] = nsname.New("scribbled", "over")
+		}
+		return flt
 	case FLabels:
 		return filter.Labels(f.Map.Go())
 	case FLabelSelector:
